@@ -225,6 +225,23 @@ def gen_C02(rng, tier):
     if rng.random() < 0.15:
         # an empty input after the pool has already processed something
         add_map(rng, c, ops, kind=rng.choice(['imap', 'imap_unordered', 'map']), n=0)
+    elif rng.random() < 0.2:
+        # more chunks than workers, one chunk fails at the very instant another one succeeds, later chunks still
+        # waiting to be accepted: the order of the two result messages and the next accept is the scheduler's
+        case['pool']['processes'] = 2
+        t = rng.choice([0.05, 0.3])
+        st = {'i': 0}
+        bad_at = rng.choice([0, 1])
+
+        def mk():
+            i = st['i']
+            st['i'] += 1
+            if i == bad_at:
+                return [['sleep', t], ['raise', rng.choice(['ValueError', 'TaskError'])]]
+            if i < 2:
+                return [['sleep', t], ['ret', rng.randint(0, 999)]]
+            return prog_ok(rng, maxticks=1, sleep=rng.choice([0, 0.05]))
+        add_map(rng, c, ops, kind=rng.choice(['map', 'map', 'starmap']), n=rng.randint(3, 6), chunks=1, mkitem=mk)
     return case
 
 
@@ -436,6 +453,10 @@ def gen_C07(rng, tier):
     ops.append(['close'])
     if rng.random() < 0.3:
         ops.append(['apply', c.uid(), prog_ok(rng), {'after_close': True}])
+    elif pc['threads'] and rng.random() < 0.3:
+        # every way of offering work is refused after close()
+        add_map(rng, c, ops, kind=rng.choice(['map', 'starmap', 'imap', 'imap_unordered']), n=rng.choice([1, 2, 4]),
+                chunks=rng.choice([None, 1, 2]))
     ops.append(['join'])
     case['epilogue'] = 'after_join'
     return case
@@ -478,12 +499,29 @@ def gen_C08(rng, tier):
         ops.append(['at', 'mid-repopulate', 5.0])
     else:
         ops.append(['sleep', rng.choice([0, 0, 0.01, 0.1, 0.5, 1.0, 2.5])])
-    if how == 'terminate_job' and uids:
+    if how == 'terminate_job' and rng.random() < 0.4:
+        # a soft revoke (terminate_job with the soft-limit signal) that the task survives, then terminate()
+        u = add_applies(rng, c, ops, 1, mk=lambda: [['catch_soft', prog_long(rng, 4.0)[:-1],
+                                                     prog_long(rng, rng.choice([3.0, 8.0]))[:-1]], ['ret', 4]])[0]
+        ops.append(['wait_accepted', u, 5.0])
+        ops.append(['sleep', 0.1])
+        ops.append(['terminate_job', u, SIGUSR1])
+        ops.append(['sleep', rng.choice([0.1, 1.0])])
+        how = 'terminate'
+    elif how == 'terminate_job' and uids:
         u = rng.choice(uids)
         ops.append(['wait_accepted', u, 5.0])
         ops.append(['terminate_job', u])
         ops.append(['sleep', rng.choice([0.1, 1.0])])
         how = 'terminate'
+    if pc['threads'] and rng.random() < 0.3:
+        # results pile up behind slow callbacks and a small pipe: termination signals find workers inside the
+        # sending of a result
+        case['cb_delay'] = rng.choice([0.4, 1.2])
+        case['pipe_cap'] = 512
+        burst = []
+        add_applies(rng, c, burst, rng.randint(6, 12), mk=lambda: [['ret', rng.randint(0, 9)]])
+        ops[0:0] = [o for o in burst if o[0] != 'sleep']
     if how == 'operator':
         case['ext_faults'].append({'kind': 'signal', 'when': rng.choice(['busy', 'busy', 'idle', 'any']),
                                    'sig': rng.choice([SIGTERM, SIGTERM, SIGHUP, SIGQUIT]),
@@ -620,8 +658,15 @@ def gen_C12(rng, tier):
     ops = case['users'][0]
     for _ in range(rng.randint(2, 5)):
         r = rng.random()
-        if r < 0.5:
+        if r < 0.4:
             add_applies(rng, c, ops, 1, mk=lambda: prog_raise(rng, deep=True))
+        elif r < 0.48:
+            # the task callable itself is a C function that raises (traceback of one entry)
+            add_applies(rng, c, ops, 1, mk=lambda: [], opts={'builtin': rng.choice(['int', 'truediv', 'getitem'])})
+        elif r < 0.56:
+            # raised by generated code (a function built with exec() into a dict without __file__/__name__)
+            add_applies(rng, c, ops, 1, mk=lambda: [['tick', rng.randint(0, 2)],
+                                                    ['raise_exec', rng.choice(['ValueError', 'KeyError', 'TaskError'])]])
         elif r < 0.75:
             add_applies(rng, c, ops, 1, mk=lambda: [['tick', 1], [rng.choice(['unpicklable', 'nested_unpicklable'])]])
         elif r < 0.9:
